@@ -202,4 +202,87 @@ theorem split_trimmed_spec (c : Bytes) (hc : trimSpace c = c) :
 /-- `NewCommitSpec` trims first, so it never reaches the odd slice: `trimSpace` is idempotent. -/
 theorem trimSpace_idempotent (s : Bytes) : trimSpace (trimSpace s) = trimSpace s := trim_trim s
 
+/-! ## 5. the base of an accepted spec, parsed on its own -/
+
+theorem space_cases (a : UInt8) (h : isSpace a = true) :
+    a = 0x20 ∨ a = 0x09 ∨ a = 0x0a ∨ a = 0x0b ∨ a = 0x0c ∨ a = 0x0d := by
+  simp only [isSpace, Bool.or_eq_true, beq_iff_eq] at h
+  rcases h with ((((h | h) | h) | h) | h) | h <;> simp [h]
+
+theorem trim_of_no_space (b : Bytes) (h : ∀ a ∈ b, isSpace a = false) : trimSpace b = b := by
+  have e1 : b.dropWhile isSpace = b := by
+    apply dropWhile_self_of_head
+    intro a ha
+    exact h a (List.mem_of_mem_head? ha)
+  have e2 : b.reverse.dropWhile isSpace = b.reverse := by
+    apply dropWhile_self_of_head
+    intro a ha
+    exact h a (List.mem_reverse.mp (List.mem_of_mem_head? ha))
+  simp only [trimSpace, e1, e2, List.reverse_reverse]
+
+/-- an accepted base (HEAD / hash / valid branch name) contains no white space -/
+theorem classify_no_space (b : Bytes) (k : BaseKind) (base : Bytes) (h : classifyBase b = .ok (k, base)) :
+    ∀ a ∈ b, isSpace a = false := by
+  intro a ha
+  cases hsp : isSpace a with
+  | false => rfl
+  | true =>
+    exfalso
+    have hc := space_cases a hsp
+    unfold classifyBase at h
+    by_cases h1 : (b.map toLower == [0x68,0x65,0x61,0x64]) = true
+    · have : toLower a ∈ b.map toLower := List.mem_map.mpr ⟨a, ha, rfl⟩
+      rw [beq_iff_eq.mp h1] at this
+      rcases hc with rfl | rfl | rfl | rfl | rfl | rfl <;> revert this <;> decide
+    · simp only [h1, Bool.false_eq_true, if_false] at h
+      by_cases h2 : looksLikeHash b = true
+      · simp only [looksLikeHash, Bool.and_eq_true, List.all_eq_true] at h2
+        have := h2.2 a ha
+        rcases hc with rfl | rfl | rfl | rfl | rfl | rfl <;> revert this <;> decide
+      · simp only [h2, Bool.false_eq_true, if_false] at h
+        by_cases h3 : isValidBranchName b = true
+        · rw [validate_iff_documented] at h3
+          simp only [Bool.and_eq_true] at h3
+          have hd := h3.1
+          simp only [documentedDatasetId, Bool.and_eq_true, List.all_eq_true] at hd
+          have := hd.1.2 a ha
+          rcases hc with rfl | rfl | rfl | rfl | rfl | rfl <;> revert this <;> decide
+        · simp [h3] at h
+
+theorem baseOf_no_spec (s : Bytes) : ∀ a ∈ baseOf s, notSpec a = true := by
+  intro a ha
+  exact takeWhile_mem notSpec _ a ha
+
+theorem takeWhile_all {α} (p : α → Bool) : ∀ (l : List α), (∀ a ∈ l, p a = true) → l.takeWhile p = l
+  | [], _ => rfl
+  | a :: t, h => by
+    simp [List.takeWhile_cons, h a (by simp), takeWhile_all p t (fun b hb => h b (by simp [hb]))]
+
+theorem dropWhile_all {α} (p : α → Bool) : ∀ (l : List α), (∀ a ∈ l, p a = true) → l.dropWhile p = []
+  | [], _ => rfl
+  | a :: t, h => by
+    simp [List.dropWhile_cons, h a (by simp), dropWhile_all p t (fun b hb => h b (by simp [hb]))]
+
+/-- **`split_then_walk`, in the property's own words**: an accepted spec's base is what
+`NewCommitSpec` makes of the base name *alone* (with the empty walk), and its walk is the separately
+parsed suffix. -/
+theorem split_then_walk_base (s : Bytes) (k : BaseKind) (base : Bytes) (instr : List Nat)
+    (h : newCommitSpec s = .ok (k, base, instr)) :
+    newCommitSpec (baseOf s) = .ok (k, base, []) ∧ parseI (suffixOf s) = .ok instr := by
+  obtain ⟨hc, hp⟩ := (split_then_walk s k base instr).mp h
+  refine ⟨?_, hp⟩
+  have htrim := trim_of_no_space _ (classify_no_space _ k base hc)
+  have hall := baseOf_no_spec s
+  have hb : baseOf (baseOf s) = baseOf s := by
+    have e : baseOf (baseOf s) = (trimSpace (baseOf s)).takeWhile notSpec := rfl
+    rw [e, htrim, takeWhile_all notSpec _ hall]
+  have hsuf : suffixOf (baseOf s) = [] := by
+    have e : suffixOf (baseOf s) = (trimSpace (baseOf s)).dropWhile notSpec := rfl
+    rw [e, htrim, dropWhile_all notSpec _ hall]
+  rw [newCommitSpec_eq, hsuf, hb, parseI_nil, hc]
+
+example : newCommitSpec [0x20,0x6d,0x61,0x69,0x6e,0x5e,0x32] = .ok (.ref, [0x6d,0x61,0x69,0x6e], [1]) ∧
+    newCommitSpec [0x6d,0x61,0x69,0x6e] = .ok (.ref, [0x6d,0x61,0x69,0x6e], []) := by
+  constructor <;> rfl
+
 end DoltVerif.C44
